@@ -512,3 +512,25 @@ func c16PartB(t *zsim.Tape, cfg *hlib.Config) *hlib.Outcome {
 	}
 	return out
 }
+
+// c16ListMain: `h C16list` — development aid: runs every enumerated polluter and every victim
+// alone and reports those that do not even parse (a catalogue entry that is a syntax error
+// pollutes nothing and reads nothing).
+func c16ListMain() {
+	w := zsim.NewWorld(zsim.NewTape(1))
+	w.Enter()
+	bad := 0
+	specs := c16EnumPolluters()
+	for i := 0; i < c16Victims; i++ {
+		specs = append(specs, c16Victim(zsim.ReplayTape([]uint32{uint32(i)})))
+	}
+	for _, sp := range specs {
+		res := runSpec(w, newInterp(probeLib()), sp)
+		if strings.Contains(res.Err, "语法错误") {
+			bad++
+			fmt.Printf("SYNTAX %s: %s\n", sp.ID, firstLines(res.Err, 3))
+		}
+	}
+	w.Leave()
+	fmt.Printf("%d catalogue entries, %d with syntax errors\n", len(specs), bad)
+}
